@@ -289,6 +289,10 @@ let run_X caseno tk =
     let patt = take_n tk r (fun tk -> opt_of_tok (next tk)) in
     let vals = take_n tk r next_z in
     Printf.printf "X %d %s\n" caseno (pr_transcript ["rk"; "sext"; "ext"] (x_conv ts pats tt patt vals))
+  end else if kind = 3 then begin
+    let (t, r, pat) = read_type tk in
+    let vals = take_n tk r next_z in
+    Printf.printf "X %d %s\n" caseno (pr_transcript ["sz"; "emp"; "ext"; "fw"] (x_view t pat vals))
   end else begin
     let (ta, ra, pata) = read_type tk in
     let (tb, rb, patb) = read_type tk in
